@@ -38,9 +38,22 @@ RULE = ('prog cases: random template trees over atoms (Constant/Table/Point/Func
         'MappingPT(MappingPT(body)) with random partial parameter / measurement mappings, inner constraints or '
         'identifier: merged or not, composed renaming, composed parameter values.  rw cases: unroll / unroll_children / '
         'encapsulate / split_one_child / _merge_single_child on hand-built loops, windows before and after (each run '
-        'judged as two cases: model side, specification side).  flat cases: flatten_and_balance / make_compatible, '
-        'Python-side oracle only.  vol cases: volatile repetition counts updated after the build (two cases per run '
-        'as for rw).  Thorough tier adds exhaustive small scopes (template shapes, loop trees, rewrites).  Non-trivial = '
+        'judged as two cases: model side, specification side).  flat cases: flatten_and_balance(depth) with the rewrites '
+        'it performs logged: replayed by run_seq, compared with the Coq model of flatten_and_balance itself (same '
+        'logged steps, same result), specification side; make_compatible: Python-side oracle only.  vol cases: '
+        'volatile repetition counts updated after the build, incl. counts switched to / from 0 (three cases per run: '
+        'model side, specification side, and the guarded positive statement: where the executable guard holds the '
+        'windows must be the declared ones, no known finding applies).  Round 3 families (ordinary prog cases, built '
+        'or called differently): the same template OBJECT at several places of a tree (under one / different '
+        'measurement mappings, in repetitions, for loops, reversals, as both operands of an ArithmeticAtomicPT), '
+        'create_program called twice on the same object (second program observed, first must agree), a MappingPT '
+        'rebinding the loop index (to an expression of itself / of a parameter) between a ForLoopPT and a measured '
+        'RepetitionPT / atom / inner ForLoopPT, swap / cyclic / coinciding / dropped-and-reused measurement names in '
+        'nested mappings and at the top level, a parameter called t, get_measurement_windows() queried twice, '
+        'reverse_inplace twice; missing-parameter cases (parameters removed from the assignment: parameter_names '
+        'compared with the model, ParameterNotProvidedException only if a declared parameter is missing).  '
+        'Thorough tier adds exhaustive small scopes (template shapes, loop trees, rewrites, aliasing contexts, '
+        'rebinding expressions x ranges, renamings of two names x top-level mappings).  Non-trivial = '
         'at least two reported windows under at least two nested composite nodes / two nested loops, traces of >= 6 '
         'calls, merges with both mappings non-empty, rewrites that were applied to loops with >= 2 windows, volatile '
         'updates that changed the windows.')
@@ -57,9 +70,10 @@ TRUSTED = [
 ASSUMPTIONS = [
     'times are dyadic rationals so that float arithmetic in numpy is exact',
     'the top-level measurement mapping is total on the names visible at the root (a missing key is a KeyError)',
-    'every parameter is provided (missing parameters are property C03\'s subject)',
-    'volatile parameters occur only in repetition counts (the code refuses them anywhere else) and every volatile '
-    'count is >= 1 before and after the update',
+    'missing parameters: only the legitimacy of a ParameterNotProvidedException is judged (a declared parameter is '
+    'missing); WHICH missing parameter the lazy evaluation hits first is not modelled (C03)',
+    'volatile parameters occur only in repetition counts (the code refuses them anywhere else); volatile counts are '
+    'non-negative integers before and after the update',
 ]
 
 PARAMS = ['a', 'b', 'c', 'd', 'n0', 'n1', 't']     # time-like a..d, integer-like n0,n1; t only in the tparam family
@@ -1220,17 +1234,24 @@ MANIFEST = {
                   'constructor really builds (nested mappings merged) plays, lasts and denotes what the tree as written '
                   'does.  (4) unroll / unroll_children / encapsulate / split_one_child / _merge_single_child keep the '
                   'duration and windows-after ++ dropped = windows-before; "unroll keeps the windows" is refuted (known '
-                  'finding) and proved under an executable guard.  (5) must_accept assignments are never rejected, every '
+                  'finding) and proved under an executable guard; flatten_and_balance (modelled with windows, while loop '
+                  '+ recursion) IS run_seq of the rewrites it logs (theorem), so it keeps the duration and only loses '
+                  'own windows of unrolled loops.  (5) must_accept assignments are never rejected, every '
                   'model rejection names the class of a really violated condition; a window sticking out of its node is '
-                  'accepted (witness).  (6) "windows follow a volatile count update" is refuted (known finding).  All '
+                  'accepted (witness).  (6) "windows follow a volatile count update" is refuted (known finding) and '
+                  'proved at Loop level under the executable guard vwok (only last children change, stale cached '
+                  'durations never used as step / offset); the guard cannot be dropped (witness).  (7) assignments '
+                  'that agree on the declared parameters (= parameter_names, compared per case) give the same plays / '
+                  'duration / windows / program.  All '
                   'models are tied to /repo by exact correspondence checks (programs, hand-built loops, step-by-step '
                   'builder traces, constructor merges, rewrites, volatile updates).',
     'level_note': 'Trusted: Coq kernel, harness + builder instrumentation, sympy/numpy evaluation of expressions, waveform '
                   'construction of atoms (only "plays" + duration are used), the transcription of which calls each '
                   'template class makes (Stack.events; checked call by call against instrumented runs).  Tested only: '
-                  'windows under flatten_and_balance / make_compatible (Python-side oracle), the positive volatile '
-                  'statement (windows inside a volatile repetition tile with the new count).  Not covered: missing '
-                  'parameters (C03), volatile counts switched to / from 0.',
+                  'windows under make_compatible (Python-side oracle; not modelled in Coq), the template-level link of '
+                  'the volatile guard (guard on the model programs + nothing reversed + counts >= 1 => windows = '
+                  'denote under the new counts: CVolG cases), termination of flatten_and_balance (fuel).  Not covered: '
+                  'which missing parameter is reported; check / rejection kinds under absent parameters.',
     'technique': 'Coq proofs by induction on the template tree (functional builder, refinement of the stack machine, '
                  'mapping merge, acceptance) and on Loop trees (reversal, cleanup, rewrites) + correspondence checks',
     'design_ref': 'DESIGN.md §5 C02, §4.5, §4.6, Appendix D3; notes/C02.md',
